@@ -79,12 +79,12 @@ impl RwLock {
     }
 
     pub(crate) fn try_acquire_read_lock(&self, location: Location) -> bool {
-        self.state.branch_action(Action::Read, location);
+        self.state.branch_try(location);
         self.post_acquire_read_lock()
     }
 
     pub(crate) fn try_acquire_write_lock(&self, location: Location) -> bool {
-        self.state.branch_action(Action::Write, location);
+        self.state.branch_try(location);
         self.post_acquire_write_lock()
     }
 
@@ -247,7 +247,11 @@ impl RwLock {
                 }
 
                 match th.operation.as_ref() {
-                    Some(op) if op.object() == self.state.erase() => {
+                    // A pending `try_read` / `try_write` does not wait
+                    Some(op)
+                        if op.object() == self.state.erase()
+                            && op.action() != object::Action::Try =>
+                    {
                         let location = op.location();
                         th.set_blocked(location);
                     }
